@@ -241,8 +241,8 @@ class StringRewriter(object):
                 var = m.group(1)
                 if var not in self.sv:
                     continue
-                if s[:m.start()].rstrip().endswith('&'):
-                    continue  # already rewritten form vstr_at(&X ... never has '[' directly
+                if re.search(r'(?<!&)&\s*$', s[:m.start()]):
+                    continue  # address-of (as in the rewritten form vstr_at(&X ...), not the tail of a logical '&&'
                 op = m.end() - 1
                 cl = match_close(s, op, '[', ']')
                 inner = self.rewrite_expr(s[op + 1:cl])
